@@ -552,3 +552,33 @@ Print Assumptions stored_label_documents_cannot_crash_the_reader.
 Theorem label_name_check_without_length_test_panics : ReadLabelDocProofs.seeded_variant_panics_main_does_not.
 Proof. exact ReadLabelDocProofs.unguarded_index_panics. Qed.
 Print Assumptions label_name_check_without_length_test_panics.
+
+(* ---- round 8: the decoder loop of storedLabels ENDS (the goroutine of Series has no deadline of its own: a loop that does not
+   end is a request blocked forever). Until this round the model ran the loop on fuel len(doc)+1 and termination was tested.
+   ReadLabelDoc.loop_run is Go's loop without fuel (no derivation = it spins forever). For EVERY stored text, every variant of
+   the decoder and every strconv.QuotedPrefix that consumes at least one byte and at most its argument (the real one returns at
+   least the two quotes; checked on every suffix of every generated row on each run): the loop ends after at most len(doc)/2
+   completed rounds, its outcome is unique, and it is the outcome the executable model computes -- the fuel is never the reason
+   of an answer. *)
+Theorem stored_label_decoder_terminates : forall qp v, ReadLabelDocProofs.consumes_something qp -> forall doc,
+  exists k, ReadLabelDoc.loop_run qp v (ReadLabelDoc.decoder_start doc) 0 k (ReadLabelDoc.stored_labels_fallback qp v doc) /\
+            (2 * k <= List.length doc)%nat /\
+            forall k' o', ReadLabelDoc.loop_run qp v (ReadLabelDoc.decoder_start doc) 0 k' o' ->
+                          k' = k /\ o' = ReadLabelDoc.stored_labels_fallback qp v doc.
+Proof. exact ReadLabelDocProofs.decoder_loop_terminates. Qed.
+Print Assumptions stored_label_decoder_terminates.
+
+(* Together with round 7: on main the unrecovered goroutine's decoder, for every stored text, ends and does not panic. *)
+Theorem stored_label_documents_cannot_crash_or_hang_the_reader : forall qp, ReadLabelDocProofs.consumes_something qp -> forall doc,
+  exists k o, ReadLabelDoc.loop_run qp ReadLabelDoc.VMain (ReadLabelDoc.decoder_start doc) 0 k o /\ o <> ReadLabelDoc.Panic /\
+              (2 * k <= List.length doc)%nat.
+Proof. exact ReadLabelDocProofs.series_decoder_total_on_main. Qed.
+Print Assumptions stored_label_documents_cannot_crash_or_hang_the_reader.
+
+(* ... and the hypothesis is needed: with a QuotedPrefix that reports success on an empty prefix the loop, started on a single
+   quote, has no run at all -- it spins (the fuel model answers Malformed there: that answer would be the cut-off's). The
+   hypothesis is satisfiable: ReadLabelDocProofs.qp_scan_consumes; a run of two rounds: decoder_runs_two_rounds. *)
+Theorem stored_label_decoder_needs_a_consuming_quoted_prefix : forall n k o,
+  ~ ReadLabelDoc.loop_run ReadLabelDoc.qp_nothing ReadLabelDoc.VMain ReadLabelDoc.one_quote n k o.
+Proof. exact ReadLabelDocProofs.decoder_needs_a_consuming_quoted_prefix. Qed.
+Print Assumptions stored_label_decoder_needs_a_consuming_quoted_prefix.
